@@ -368,7 +368,17 @@ def junction_bracketed(eos, vp, vw, hybrid, Tscale):
         b = min(b * 1.3, hi_ceil / 1.0001)
         rb = R2(b)
         n += 1
-    Tp = a if ra == 0 else b if rb == 0 else brentq(R2, a, b, xtol=1e-300, rtol=4 * np.finfo(float).eps, maxiter=300)
+    if ra == 0 or rb == 0:
+        Tp = a if ra == 0 else b
+    else:
+        try:
+            Tp = brentq(R2, a, b, xtol=1e-300, rtol=4 * np.finfo(float).eps, maxiter=300)
+        except ValueError:
+            # the inner inversion is re-done on every call, so R2 is reproducible only to rounding;
+            # a sign flip of a residual at rounding level means we are at the root already
+            if min(abs(ra), abs(rb)) > 1e-12:
+                raise RefFailure("junction-bracket-sign")
+            Tp = a if abs(ra) < abs(rb) else b
     Tm = Tm_of(Tp)
     return Tp, Tm, vm_of(Tm)
 
@@ -673,8 +683,15 @@ class Matching:
 NO_SOLUTION_REASONS = ("below-vmin", "above-vJ", "below-vJ")
 
 
-def match_deflag(eos, Tn, vw, want_kappa=False):
+class _Hinted(Exception):
+    pass
+
+
+def match_deflag(eos, Tn, vw, want_kappa=False, hint_vp=None):
     """Reference deflagration/hybrid matching for (EOS, Tn, vw).
+
+    `hint_vp` (optional) only saves work: if Tn'(v+) - Tn changes sign on hint_vp (1 -+ 1e-4) that
+    bracket is used, otherwise the global search below runs.  The root itself never depends on it.
 
     Outer unknown v+ in (0, min(vw, c_s^2/vw)); for each v+ the wall junction gives (Tp, Tm, vm)
     (own Newton iteration with continuation, guess-free bracketing as fallback), the flow is
@@ -711,7 +728,22 @@ def match_deflag(eos, Tn, vw, want_kappa=False):
                 return None
             raise
 
+    hinted = None
+    if hint_vp is not None and 0.0 < hint_vp < vw:
+        try:
+            a_, b_ = hint_vp * (1 - 1e-4), min(hint_vp * (1 + 1e-4), vw * (1 - 1e-12))
+            ra_, rb_ = shoot(a_), shoot(b_)
+            if (ra_[0] <= 0 <= rb_[0] and ra_[5].kind != "front-at-wall" and rb_[5].kind != "front-at-wall"
+                    and b_ > a_):
+                hinted = (a_, ra_, b_, rb_)
+        except RefFailure:
+            hinted = None
+        if hinted is None:
+            cache.clear()
+            state["guess"] = None
     try:
+        if hinted is not None:
+            raise _Hinted()
         # ---- upper end of the family.  vp -> vw means T+ -> infinity (no shock) for bag-like EOS; for
         # mu > nu the family ends earlier (alpha+ is bounded below), which shows up as a junction failure.
         top_fail = None
@@ -822,6 +854,12 @@ def match_deflag(eos, Tn, vw, want_kappa=False):
             if lo is None:
                 m.reason = "below-vmin"
                 return m
+    except _Hinted:
+        lo, rlo, hi, rhi = hinted
+    except RefFailure as exc:
+        m.reason = str(exc)
+        return m
+    try:
         state["guess"] = (rhi[1], rhi[2], rhi[4])
         vp = lo if rlo[0] == 0 else brentq(lambda x: shoot(x)[0], lo, hi, xtol=1e-300, rtol=1e-14, maxiter=200)
         r = shoot(vp)
